@@ -157,7 +157,12 @@ func (s *session) heartbeat() {
 	s.Lock()
 	defer s.Unlock()
 	if s.heartbeatCh != nil {
-		s.heartbeatCh <- true
+		select {
+		case s.heartbeatCh <- true:
+		default:
+			// A heartbeat is already pending. Never block while holding the lock: the
+			// goroutine that drains the channel needs the same lock when it starts
+		}
 	}
 }
 
